@@ -46,10 +46,14 @@ type Cfg struct {
 	// Via: "" chunk and limit are per-host settings; "client" they are the client-wide settings
 	// (regclient.WithBlobSize); "both" the client-wide chunk is Chunk and the host's is 2*Chunk
 	Via string `json:"via,omitempty"`
+	// Mount: "anon" the registry accepts a mount without a source repository and another
+	// repository already holds content under the DECLARED digest (the stream's bytes when the
+	// declaration is right, other bytes when the declared digest is wrong)
+	Mount string `json:"mount,omitempty"`
 }
 
 func (c Cfg) String() string {
-	return fmt.Sprintf("len=%d chunk=%d max=%d desc=%s/%s reader=%s loc=%q minchunk=%d tgt=%s via=%q", c.Len, c.Chunk, c.Max, c.Desc, c.Algo, c.Reader, c.Loc, c.MinCh, c.Target, c.Via)
+	return fmt.Sprintf("len=%d chunk=%d max=%d desc=%s/%s reader=%s loc=%q minchunk=%d tgt=%s via=%q", c.Len, c.Chunk, c.Max, c.Desc, c.Algo, c.Reader, c.Loc, c.MinCh, c.Target, c.Via) + map[bool]string{true: " mount=" + c.Mount}[c.Mount != ""]
 }
 
 func content(n int) []byte {
@@ -73,6 +77,34 @@ func (o oneByte) Read(p []byte) (int, error) {
 	return o.r.Read(p)
 }
 func (o oneByte) Seek(off int64, wh int) (int64, error) { return o.r.Seek(off, wh) }
+
+// failMid delivers the first half of the content and then fails, like a source connection that
+// drops during a copy; it fails again after every rewind.
+type failMid struct {
+	b   []byte
+	pos int
+}
+
+var errSource = errors.New("source stream failed")
+
+func (f *failMid) Read(p []byte) (int, error) {
+	if f.pos >= len(f.b)/2 {
+		return 0, errSource
+	}
+	n := copy(p, f.b[f.pos:len(f.b)/2])
+	f.pos += n
+	return n, nil
+}
+
+type failMidSeek struct{ failMid }
+
+func (f *failMidSeek) Seek(off int64, wh int) (int64, error) {
+	if wh != io.SeekStart || off != 0 {
+		return 0, errors.New("unsupported seek")
+	}
+	f.pos = 0
+	return 0, nil
+}
 
 // reads counts what was actually consumed from the caller's stream
 type countRd struct {
@@ -123,7 +155,7 @@ func deviations(e *modelreg.Entry, n *modelreg.Net) []string {
 		if !valid {
 			return []string{"ok", "500", "reset"}
 		}
-		d := []string{"ok", "500", "reset", "applied-reset", "early-201", "416-resync"}
+		d := []string{"ok", "500", "reset", "applied-reset", "early-201", "416-resync", "no-range"}
 		for k := 1; k < len(e.Body) && k <= 3; k++ {
 			d = append(d, fmt.Sprintf("partial-%d", k))
 		}
@@ -171,6 +203,10 @@ func run(t *testing.T, c *explore.Ctx, cfg Cfg, scratch string) *result {
 		rdr = noSeek{br}
 	case "onebyte":
 		rdr = oneByte{br}
+	case "failmid":
+		rdr = &failMid{b: res.data}
+	case "failmid-seek":
+		rdr = &failMidSeek{failMid{b: res.data}}
 	}
 	_, other := qsched.Bubble(t, func() {
 		ctx := context.Background()
@@ -189,9 +225,17 @@ func run(t *testing.T, c *explore.Ctx, cfg Cfg, scratch string) *result {
 		f := modelreg.Full()
 		f.Location = cfg.Loc
 		f.ChunkMin = cfg.MinCh
+		f.AnonMount = cfg.Mount == "anon"
 		h := net.AddHost(host, f)
 		if cfg.Preload {
 			h.Repo("other/repo").Blobs[right.Digest.String()] = res.data
+		}
+		if cfg.Mount == "anon" {
+			if cfg.Desc == "wrong-digest" {
+				h.Repo("other/repo").Blobs[d.Digest.String()] = append([]byte("x"), res.data...)
+			} else if d.Digest != "" {
+				h.Repo("other/repo").Blobs[d.Digest.String()] = res.data
+			}
 		}
 		net.Decide = func(e *modelreg.Entry) *modelreg.Answer {
 			res.nreq++
@@ -210,7 +254,7 @@ func run(t *testing.T, c *explore.Ctx, cfg Cfg, scratch string) *result {
 			// conforming, and a reply lost after a committing PUT was processed leaves the client
 			// without a session to continue: both stay in the alphabet for the safety and
 			// termination clauses only.
-			if dv == "416-resync" || (dv == "applied-reset" && e.Kind == "upload-put") {
+			if dv == "416-resync" || dv == "no-range" || (dv == "applied-reset" && e.Kind == "upload-put") {
 				res.hostile = true
 			}
 			switch {
@@ -234,6 +278,16 @@ func run(t *testing.T, c *explore.Ctx, cfg Cfg, scratch string) *result {
 				a = &modelreg.Answer{Status: 201, Header: http.Header{}, Note: "dev-early-201"}
 				a.Header.Set("Location", "/v2/"+e.Repo+"/blobs/uploads/"+up.ID)
 				a.Header.Set("Range", fmt.Sprintf("0-%d", max(len(up.Data)-1, 0)))
+				return a
+			case dv == "no-range":
+				// the chunk is stored and acknowledged, but the 202 carries no Range header (older
+				// registries): outside the spec, so only the safety clauses apply
+				up := h.Repo(e.Repo).Uploads[e.Ref]
+				if up == nil {
+					return nil
+				}
+				a := &modelreg.Answer{Apply: true, Status: 202, Header: http.Header{}, Note: "dev-no-range"}
+				a.Header.Set("Location", "/v2/"+e.Repo+"/blobs/uploads/"+up.ID)
 				return a
 			case dv == "416-resync":
 				up := h.Repo(e.Repo).Uploads[e.Ref]
@@ -307,6 +361,25 @@ func judge(r *result) (string, string) {
 	}
 	if r.nreq > 400 {
 		return "no-termination", "upload exceeded 400 requests"
+	}
+	if strings.HasPrefix(cfg.Reader, "failmid") && !(cfg.Mount == "anon" && r.net != nil && len(r.net.Log) == 1) {
+		// the caller's stream fails half way: nothing may be reported or committed as this blob
+		if r.err == nil {
+			return "source-error-swallowed", fmt.Sprintf("the source stream failed after %d of %d bytes but BlobPut returned nil (%s)", len(r.data)/2, len(r.data), r.ret.Digest)
+		}
+		for _, dd := range []string{r.declared.Digest.String(), actual, modelreg.Digest(algo, r.data[:len(r.data)/2])} {
+			if dd == "" || (dd != actual && dd != r.declared.Digest.String() && len(r.data)/2 == 0) {
+				continue
+			}
+			if got, ok := r.stored(dd); ok && !(dd == modelreg.Digest(algo, r.data[:len(r.data)/2]) && cfg.Mount == "anon") {
+				return "committed-after-source-error", fmt.Sprintf("the source stream failed after %d of %d bytes, BlobPut returned %v, but %q is stored under %s", len(r.data)/2, len(r.data), r.err, got, dd)
+			}
+		}
+		return "", ""
+	}
+	if r.err == nil && mismatch && cfg.Mount == "anon" && len(r.net.Log) == 1 {
+		// the registry accepted the anonymous mount of the declared digest: the stream was never read
+		return "mismatch-accepted via-anonymous-mount!", fmt.Sprintf("descriptor %s does not match the stream (digest %s, len %d) but BlobPut succeeded after the registry mounted the declared digest from another repository; the stream was not read", cfg.Desc, actual, len(r.data))
 	}
 	if r.err == nil {
 		// success: destination holds under the returned digest exactly the stream's bytes
@@ -385,7 +458,7 @@ type item struct {
 func grid(thorough bool) []item {
 	var out []item
 	descs := []string{"absent", "right", "wrong-digest", "size+1", "size-1", "size-only", "digest-only"}
-	readers := []string{"seek", "noseek", "onebyte"}
+	readers := []string{"seek", "noseek", "onebyte", "failmid", "failmid-seek"}
 	// 1. configuration grid at 0 deviations (registry and layout)
 	for _, c := range []int{1, 2, 3, 4} {
 		for _, mx := range []int{-1, 1, 2 * c} {
@@ -398,7 +471,10 @@ func grid(thorough bool) []item {
 						for _, rd := range readers {
 							for _, loc := range []string{"", "abs", "query"} {
 								for _, mc := range []int{0, c + 1, 3 * c} {
-									if (loc != "" || mc != 0) && (a == "sha512" || rd == "onebyte") {
+									if (loc != "" || mc != 0) && (a == "sha512" || rd == "onebyte" || strings.HasPrefix(rd, "failmid")) {
+										continue
+									}
+									if strings.HasPrefix(rd, "failmid") && (n == 0 || strings.HasPrefix(d, "size") || d == "wrong-digest") {
 										continue
 									}
 									out = append(out, item{Cfg{Len: n, Chunk: c, Max: mx, Desc: d, Algo: a, Reader: rd, Loc: loc, MinCh: mc, Target: "reg"}, 0})
@@ -410,8 +486,14 @@ func grid(thorough bool) []item {
 									}
 								}
 							}
+							if strings.HasPrefix(rd, "failmid") && (n == 0 || strings.HasPrefix(d, "size") || d == "wrong-digest") {
+								continue
+							}
 							if mx == -1 {
 								out = append(out, item{Cfg{Len: n, Chunk: c, Max: mx, Desc: d, Algo: a, Reader: rd, Target: "dir"}, 0})
+							}
+							if d != "absent" && d != "size-only" && !strings.HasPrefix(rd, "failmid") {
+								out = append(out, item{Cfg{Len: n, Chunk: c, Max: mx, Desc: d, Algo: a, Reader: rd, Target: "reg", Mount: "anon"}, 0})
 							}
 						}
 					}
@@ -441,6 +523,9 @@ func grid(thorough bool) []item {
 								bb = 1
 							}
 							out = append(out, item{Cfg{Len: n, Chunk: c, Max: mx, Desc: d, Algo: "sha256", Reader: rd, Loc: loc, Target: "reg"}, bb})
+							if loc == "" && d == "right" {
+								out = append(out, item{Cfg{Len: n, Chunk: c, Max: mx, Desc: d, Algo: "sha256", Reader: rd, Target: "reg", Mount: "anon"}, bb})
+							}
 						}
 					}
 				}
@@ -458,9 +543,9 @@ type replay struct {
 func TestVerifC05(t *testing.T) {
 	rec := ev.New()
 	defer rec.Flush(t)
-	rec.Rule("configuration grid = blob length around every chunk/max boundary × chunk size × single-request limit × declared descriptor {absent, right, wrong digest, size±1, size only, digest only} × {sha256, sha512} × reader {seekable, non-seekable, one byte at a time} × upload Location style × server minimum chunk × destination {registry model, OCI layout}; " +
-		"for the registry additionally every sequence of at most k deviations at the upload requests {500, connection reset, reply lost after the server applied the request, 413 on the single PUT, early 201, 416 re-sync, partial acceptance of 1..3 bytes of a chunk}, k=2 quick / 3 thorough. " +
-		"Oracle: committed bytes under the returned digest = stream; declared≠actual ⇒ error and nothing under the declared digest; well-formed input against conforming behaviour succeeds. distinct_nontrivial = distinct (configuration, deviation list, outcome)")
+	rec.Rule("configuration grid = blob length around every chunk/max boundary × chunk size × single-request limit × declared descriptor {absent, right, wrong digest, size±1, size only, digest only} × {sha256, sha512} × reader {seekable, non-seekable, one byte at a time, failing half way (plain and rewindable)} × upload Location style × server minimum chunk × anonymous mount declined / accepted (another repository holds the declared digest) × destination {registry model, OCI layout}; " +
+		"for the registry additionally every sequence of at most k deviations at the upload requests {500, connection reset, reply lost after the server applied the request, 413 on the single PUT, early 201, 416 re-sync, 202 without Range, partial acceptance of 1..3 bytes of a chunk}, k=2 quick / 3 thorough. " +
+		"Oracle: committed bytes under the returned digest = stream; a failing source ⇒ error and nothing committed under the declared, the full or the prefix digest; declared≠actual ⇒ error and nothing under the declared digest; well-formed input against conforming behaviour succeeds. distinct_nontrivial = distinct (configuration, deviation list, outcome)")
 	rec.Assume("the in-memory transport reproduces net/http's Content-Length enforcement; all deviations offered are behaviours a conforming registry or a flaky network may show")
 	if rd := rec.ReplayData(); rd != nil {
 		var rp replay
@@ -480,7 +565,7 @@ func TestVerifC05(t *testing.T) {
 		fmt.Printf("verdict: %s %s\n", k, m)
 		rec.Eval(1)
 		if k != "" {
-			rec.Violation(k+" "+rp.Cfg.String(), m, rp)
+			rec.Violation(strings.TrimSuffix(k, "!")+" "+rp.Cfg.String(), m, rp)
 		}
 		return
 	}
@@ -528,7 +613,11 @@ func TestVerifC05(t *testing.T) {
 					return
 				}
 				// one key per defect class and descriptor/reader kind, not per length
-				rec.Violation(fmt.Sprintf("%s desc=%s reader=%s tgt=%s dev=%s", r.VKey, cfg.Desc, cfg.Reader, cfg.Target, devKinds(r.Outcome)), r.Violation+"\nconfig: "+cfg.String(), replay{cfg, explore.Trim(c.Choices())})
+				key := fmt.Sprintf("%s desc=%s reader=%s tgt=%s dev=%s", r.VKey, cfg.Desc, cfg.Reader, cfg.Target, devKinds(r.Outcome))
+				if strings.HasSuffix(r.VKey, "!") {
+					key = strings.TrimSuffix(r.VKey, "!") // a class of failing inputs
+				}
+				rec.Violation(key, r.Violation+"\nconfig: "+cfg.String(), replay{cfg, explore.Trim(c.Choices())})
 			}
 			rec.Distinct(cfg.String() + "#" + r.Outcome)
 		}
